@@ -52,7 +52,7 @@ def run(rep, ctx):
 
 def r1_number_arms(rep, ctx):
     m = ctx.model
-    fn = m.method("Scalar", "_DoOperation")
+    fn = dispatch.do_operation(m, "Scalar")
     res = Resolver(m, fn)
     P = {p: i for i, p in enumerate(fn.params)}
     rets = [r for r in own_nodes(fn.node) if isinstance(r, ast.Return) and r.value is not None]
@@ -131,7 +131,7 @@ def r1_number_arms(rep, ctx):
                       "k / x calls the operation with %s" % [show(x, 40) for x in a], node=c, fn=fn)
     rep.check(found, "C09.R1", "Scalar._DoOperation:number-over-scalar:present", "the k / x arm exists", "no arm passes the empty quantity for a number on the left of a division", fn=fn)
     # Array: result class and empty quantity on the number's own side
-    afn = m.method("Array", "_DoOperation")
+    afn = dispatch.do_operation(m, "Array")
     ares = Resolver(m, afn)
     for r in own_nodes(afn.node):
         if isinstance(r, ast.Return) and r.value is not None:
